@@ -1,3 +1,4 @@
 -- root of the Generated library (rewritten from the live /repo by harness/regen.py)
 import Generated.Constants
 import Generated.Registry
+import Generated.KnnDecision
